@@ -1052,6 +1052,16 @@ static bool canResend(ssl_t *ssl)
 {
     bool canSend = false;
 
+    if (ssl->lastMsn > ssl->flightLastMsn)
+    {
+        /* The peer has answered our last flight: handshake messages newer
+           than that flight have been received, so we are midway through the
+           peer's flight and whatever is missing is for the peer to resend.
+           Rebuilding our own flight now would also rewind the handshake
+           state to what it was before those messages were parsed. */
+        return false;
+    }
+
     if (ssl->flags & SSL_FLAGS_SERVER)
     {
         if (ssl->hsState == SSL_HS_FINISHED)
